@@ -46,7 +46,7 @@ theorem validUri_modify {old new : String} (h1 : validUri old = true) (h2 : vali
 /-! ### `WF` is inductive -/
 
 theorem wf_init : WF ({} : State) := by
-  refine ⟨by simp [AMap.keys], by simp [AMap.keys], by simp [AMap.keys], ?_, ?_, ?_⟩
+  refine ⟨by simp [AMap.keys], by simp [AMap.keys], by simp [AMap.keys], by simp [AMap.keys], ?_, ?_, ?_⟩
   · intro c cl h; simp [AMap.get?] at h
   · intro c t r h; simp [tokenOf, Tbl.get, AMap.get?] at h
   · intro c t a h; simp [ownerOf, Tbl.get, AMap.get?] at h
@@ -82,7 +82,7 @@ theorem wf_step (s s' : State) (op : Op) (hw : WF s) (h : step s op = .ok s') : 
   | issue sender id mr ur name symbol schema desc uri uriHash data =>
     obtain ⟨hvb, _, rfl⟩ := stepIssue_ok h
     obtain ⟨h1, h2⟩ := issueVB_ok hvb
-    refine ⟨nodupKeys_set hw.nd_classes _ _, hw.nd_tokens, hw.nd_idx, ?_, hw.tok_ok, hw.own_ok⟩
+    refine ⟨nodupKeys_set hw.nd_classes _ _, hw.nd_tokens, hw.nd_owners, hw.nd_idx, ?_, hw.tok_ok, hw.own_ok⟩
     intro c cl hcl
     by_cases hk : id = c
     · subst hk
@@ -94,14 +94,14 @@ theorem wf_step (s s' : State) (op : Op) (hw : WF s) (h : step s op = .ok s') : 
     obtain ⟨hvb, _, _, _, hm⟩ := stepMint_ok h
     obtain ⟨_, _, rfl⟩ := nkMint_ok hm
     obtain ⟨h1, h2, h3⟩ := mintVB_ok hvb
-    exact ⟨hw.nd_classes, nodupKeys_set hw.nd_tokens _ _, nodupKeys_set hw.nd_idx _ _, hw.class_ok,
+    exact ⟨hw.nd_classes, nodupKeys_set hw.nd_tokens _ _, nodupKeys_set hw.nd_owners _ _, nodupKeys_set hw.nd_idx _ _, hw.class_ok,
       tok_ok_put hw h3 h2, own_ok_put hw.own_ok h1⟩
   | edit sender c t name uri uriHash data =>
     obtain ⟨hvb, _, _, _, _, hr⟩ := stepEdit_ok h
     rcases hr with rfl | ⟨r, hr, rfl⟩
     · exact hw
     · have ho := hw.tok_ok c t r hr
-      exact ⟨hw.nd_classes, nodupKeys_set hw.nd_tokens _ _, hw.nd_idx, hw.class_ok,
+      exact ⟨hw.nd_classes, nodupKeys_set hw.nd_tokens _ _, hw.nd_owners, hw.nd_idx, hw.class_ok,
         tok_ok_put hw ho.1 (validUri_modify ho.2 (editVB_ok hvb)), hw.own_ok⟩
   | transfer sender rcpt c t name uri uriHash data =>
     obtain ⟨hvb, r, _, hr, _, _, _, tk, htk, rfl⟩ := stepTransfer_ok h
@@ -111,19 +111,20 @@ theorem wf_step (s s' : State) (op : Op) (hw : WF s) (h : step s op = .ok s') : 
         validAddr a' = true :=
       own_ok_put (ok_del (P := fun _ _ a => validAddr a = true) hw.own_ok) h1
     rcases htk with rfl | ⟨_, rfl⟩
-    · exact ⟨hw.nd_classes, hw.nd_tokens, nodupKeys_set (nodupKeys_set hw.nd_idx _ _) _ _, hw.class_ok,
-        hw.tok_ok, hown⟩
-    · exact ⟨hw.nd_classes, nodupKeys_set hw.nd_tokens _ _, nodupKeys_set (nodupKeys_set hw.nd_idx _ _) _ _,
+    · exact ⟨hw.nd_classes, hw.nd_tokens, nodupKeys_set (nodupKeys_set hw.nd_owners _ _) _ _,
+        nodupKeys_set (nodupKeys_set hw.nd_idx _ _) _ _, hw.class_ok, hw.tok_ok, hown⟩
+    · exact ⟨hw.nd_classes, nodupKeys_set hw.nd_tokens _ _, nodupKeys_set (nodupKeys_set hw.nd_owners _ _) _ _,
+        nodupKeys_set (nodupKeys_set hw.nd_idx _ _) _ _,
         hw.class_ok, tok_ok_put hw ho.1 (validUri_modify ho.2 h2), hown⟩
   | burn sender c t =>
     obtain ⟨_, _, _, rfl⟩ := stepBurn_ok h
-    exact ⟨hw.nd_classes, nodupKeys_set hw.nd_tokens _ _, nodupKeys_set hw.nd_idx _ _, hw.class_ok,
+    exact ⟨hw.nd_classes, nodupKeys_set hw.nd_tokens _ _, nodupKeys_set hw.nd_owners _ _, nodupKeys_set hw.nd_idx _ _, hw.class_ok,
       ok_del (P := fun _ t (r : TokenRec) => validTokenId t = true ∧ validUri r.uri = true) hw.tok_ok,
       ok_del (P := fun _ _ a => validAddr a = true) hw.own_ok⟩
   | transferDenom sender rcpt c =>
     obtain ⟨hvb, cl, hcl, _, rfl⟩ := stepTransferDenom_ok h
     have h1 := transferDenomVB_ok hvb
-    refine ⟨nodupKeys_set hw.nd_classes _ _, hw.nd_tokens, hw.nd_idx, ?_, hw.tok_ok, hw.own_ok⟩
+    refine ⟨nodupKeys_set hw.nd_classes _ _, hw.nd_tokens, hw.nd_owners, hw.nd_idx, ?_, hw.tok_ok, hw.own_ok⟩
     intro c' cl' hcl'
     by_cases hk : c = c'
     · subst hk
@@ -224,6 +225,7 @@ structure Good (s : State) : Prop where
   inv : Inv s
   nd_classes : NodupKeys s.classes
   nd_tokens : NodupKeys s.tokens
+  nd_owners : NodupKeys s.owners
   nd_idx : NodupKeys s.idx
 
 theorem good_init : Good ({} : State) :=
@@ -234,7 +236,8 @@ theorem good_init : Good ({} : State) :=
     · intro c t h; simp [hasNFT, tokenOf, Tbl.get, AMap.get?] at h
     · intro c; simp [supplyOf, tokenCount, Tbl.count, AMap.sumIf, AMap.getD, AMap.get?]
     · intro c; rfl,
-   by simp [NodupKeys, AMap.keys], by simp [NodupKeys, AMap.keys], by simp [NodupKeys, AMap.keys]⟩
+   by simp [NodupKeys, AMap.keys], by simp [NodupKeys, AMap.keys], by simp [NodupKeys, AMap.keys],
+   by simp [NodupKeys, AMap.keys]⟩
 
 /-- the state after `Mint` -/
 def mintedSt (s : State) (c : ClassId) (t : TokenId) (r : TokenRec) (a : Addr) : State :=
@@ -248,7 +251,7 @@ theorem nkMint_eq {s : State} {c t} (r : TokenRec) (a : Addr) (hc : hasClass s c
 theorem good_minted {s : State} (hg : Good s) {c t} (r : TokenRec) (a : Addr) (hc : hasClass s c = true)
     (hn : hasNFT s c t = false) : Good (mintedSt s c t r a) :=
   ⟨inv_nkMint hg.inv (nkMint_eq r a hc hn), hg.nd_classes, nodupKeys_set hg.nd_tokens _ _,
-   nodupKeys_set hg.nd_idx _ _⟩
+   nodupKeys_set hg.nd_owners _ _, nodupKeys_set hg.nd_idx _ _⟩
 
 theorem importNfts_spec (c : ClassId) : ∀ (ns : List NftExp) (acc : State),
     hasClass acc c = true → (ns.map (·.id)).Nodup → (∀ n ∈ ns, hasNFT acc c n.id = false) → Good acc →
@@ -309,7 +312,7 @@ theorem importCollections_spec : ∀ (g : Genesis) (acc : State),
     have hids' : c.id ∉ rest.map (·.id) ∧ (rest.map (·.id)).Nodup := List.nodup_cons.mp hids
     obtain ⟨hc0, ht0⟩ := hfree c List.mem_cons_self
     have hg1 : Good { acc with classes := AMap.set acc.classes c.id c.cls } :=
-      ⟨inv_setClass hg.inv _ _, nodupKeys_set hg.nd_classes _ _, hg.nd_tokens, hg.nd_idx⟩
+      ⟨inv_setClass hg.inv _ _, nodupKeys_set hg.nd_classes _ _, hg.nd_tokens, hg.nd_owners, hg.nd_idx⟩
     have hc1 : hasClass { acc with classes := AMap.set acc.classes c.id c.cls } c.id = true := by
       simp [hasClass, contains_set]
     obtain ⟨s1, i1, i2, i3, i4, i5⟩ := importNfts_spec c.id c.nfts _ hc1 (htn c List.mem_cons_self)
@@ -554,7 +557,7 @@ theorem export_congr {a b : State} (h : ObsEq a b) (na : NodupKeys a.tokens) (nb
 
 /-- well-formedness and C14's invariant carry over to an observationally equal duplicate-free store -/
 theorem wf_of_obsEq {a b : State} (h : ObsEq a b) (ga : Good a) (hb : WF b) : WF a :=
-  ⟨ga.nd_classes, ga.nd_tokens, ga.nd_idx,
+  ⟨ga.nd_classes, ga.nd_tokens, ga.nd_owners, ga.nd_idx,
    fun c cl hcl => hb.class_ok c cl (by rw [← h.classes]; exact hcl),
    fun c t r hr => hb.tok_ok c t r (by rw [← h.tokens]; exact hr),
    fun c t x hx => hb.own_ok c t x (by rw [← h.owners]; exact hx)⟩
